@@ -19,6 +19,7 @@ import PgVerif.Model.SearchRe
 import PgVerif.Model.SearchShow
 import PgVerif.Model.Secrets
 import PgVerif.Gen.Search
+import PgVerif.Spec.SearchFloat
 namespace Driver.Fam
 open PgVerif Driver PgVerif.Spec.Search
 
@@ -101,8 +102,11 @@ def showHits : Option (List Hit) → String
 def modelSearch (d : Dump) (o : Opts) : Option (List Hit) :=
   (Model.Search.searchInDump Model.SearchRe.litRegex Model.SearchShow.searchScalar d o).map (·.map Model.Search.toHit)
 
+/-- the scalar text of the specification: floats by `Spec.SearchFloat` (from the bit pattern), the rest `%v` -/
+def specScalar : GoVal → Bytes := Spec.SearchFloat.searchSh Model.SearchShow.showScalar
+
 def specSearch (d : Dump) (o : Opts) : Option (List Hit) :=
-  expected Model.SearchRe.litRegex Model.SearchShow.searchScalar d o
+  expected Model.SearchRe.litRegex specScalar d o
 
 def mkOpts (pat : Bytes) (cs incl : Bool) (mx : Int) : Opts :=
   { pattern := pat, caseSensitive := cs, includeRow := incl, maxResults := mx }
@@ -141,12 +145,24 @@ def fixedSearch : List (Dump × Bytes × Bool × Bool × Int) :=
     ([], s2b "x", false, false, 0), ([{ name := s2b "e", tables := [] }], s2b "x", false, false, 1) ] ++
   (Gen.Search.invalidPatterns.flatMap fun p => [(d1, s2b p, false, false, 0), (d1, s2b p, true, true, 1)]) ++
   -- numbers decoded to float64 (numeric, float8, JSON numbers) are searched as PostgreSQL prints them (fix search/05):
-  -- 1000000, 1234567.89 positionally; 1e+15 and 1e+21 in exponent notation
+  -- 1000000, 1234567.89 positionally (75–81)
   (let rowF : Row := [(s2b "amount", .f64 0x412e848000000000), (s2b "price", .f64 0x4132d687e3d70a3d), (s2b "big", .f64 0x430c6bf52633fff8),
                       (s2b "huge", .f64 0x444b1ae4d6e2ef50), (s2b "doc", .obj [(s2b "n", .f64 0x412e848000000000), (s2b "m", .arr [.f64 0xc12e848000000000])])]
    let dF : Dump := [{ name := s2b "db", tables := [{ name := s2b "acct", columns := [s2b "amount", s2b "price", s2b "big", s2b "huge", s2b "doc"], rows := [rowF] }] }]
    [ (dF, s2b "^1000000$", false, false, 0), (dF, s2b "1000000", false, true, 0), (dF, s2b "1234567.89", false, false, 0), (dF, s2b "e", true, false, 0),
-     (dF, s2b "^999999999999999$", false, false, 0), (dF, s2b "^-1000000$", false, false, 0), (dF, s2b "^1e", false, false, 0) ])
+     (dF, s2b "^999999999999999$", false, false, 0), (dF, s2b "^-1000000$", false, false, 0), (dF, s2b "^1e", false, false, 0) ]) ++
+  -- fix search/06 (82–93): positional at EVERY magnitude for a float64 (1e15, 1e21, 0.00001), NaN / Infinity / -Infinity
+  -- for both widths, a float32 (float4) in %g layout (1e+06, 1.234567e+06)
+  (let rowG : Row := [(s2b "big", .f64 0x430c6bf526340000), (s2b "small", .f64 0x3ee4f8b588e368f1), (s2b "huge", .f64 0x444b1ae4d6e2ef50),
+                      (s2b "pinf", .f64 0x7ff0000000000000), (s2b "ninf", .f64 0xfff0000000000000), (s2b "nan", .f64 0x7ff8000000000001),
+                      (s2b "f4", .f32 0x49742400), (s2b "f4b", .f32 0x4996b438), (s2b "f4inf", .f32 0x7f800000), (s2b "f4nan", .f32 0x7fc00000),
+                      (s2b "doc", .obj [(s2b "n", .f64 0x430c6bf526340000), (s2b "m", .arr [.f64 0xbee4f8b588e368f1, .f64 0xfff0000000000000])])]
+   let dG : Dump := [{ name := s2b "db", tables := [{ name := s2b "m", columns := [s2b "big", s2b "small", s2b "huge", s2b "pinf", s2b "ninf", s2b "nan",
+                                                                                     s2b "f4", s2b "f4b", s2b "f4inf", s2b "f4nan", s2b "doc"], rows := [rowG] }] }]
+   [ (dG, s2b "^1000000000000000$", true, false, 0), (dG, s2b "^0.00001$", true, false, 0), (dG, s2b "^1000000000000000000000$", true, true, 0),
+     (dG, s2b "^Infinity$", true, false, 0), (dG, s2b "^-Infinity$", true, false, 0), (dG, s2b "^NaN$", true, false, 0),
+     (dG, s2b "inf", false, false, 0), (dG, s2b "Inf$", true, false, 0), (dG, s2b "^1e", true, false, 0), (dG, s2b "e", true, false, 0),
+     (dG, s2b "^1.234567e.06$", true, false, 0), (dG, s2b "00001", true, false, 3) ])
 
 def searchGen (seed idx size : Nat) : Case :=
   let (d, pat, cs, incl, mx, kind) : Dump × Bytes × Bool × Bool × Int × String :=
@@ -177,7 +193,7 @@ def searchGen (seed idx size : Nat) : Case :=
   let all := match specSearch d (mkOpts pat cs false 0) with | some hs => hs.length | none => 0
   let got := match s with | some hs => hs.length | none => 0
   let multi := d.any fun db => db.tables.any fun t => t.rows.any fun r =>
-    (r.filter fun kv => cellMatches ((Model.SearchRe.litRegex.compile (effPattern o)).getD fun _ => false) Model.SearchShow.searchScalar kv.2).length > 1
+    (r.filter fun kv => cellMatches ((Model.SearchRe.litRegex.compile (effPattern o)).getD fun _ => false) specScalar kv.2).length > 1
   let tags := [s!"pat={kind}", s!"cs={b2s cs}", s!"row={b2s incl}",
                (if s.isNone then "res=error" else if all == 0 then "hits=0" else if all == 1 then "hits=1" else if all ≤ 5 then "hits=2-5" else "hits>5"),
                (if mx < 0 then "max<0" else if mx == 0 then "max=0" else if mx.toNat < all then "max<N" else if mx.toNat == all then "max=N" else "max>N"),
